@@ -59,7 +59,7 @@ def local(ctx, fn, tag='compared'):
 # what each check's own implementation runs are expected to reach: (file, only these functions or None = all)
 BY_PID = {
     'C08': [('journal.py', None)],
-    'C13': [('tcp_connection.py', None)],
+    'C13': [('tcp_connection.py', None), ('poller.py', None)],
     'C14': [('transport.py', None)],
     'C15': [('batteries.py', None)],
     'C16': [('batteries.py', ('_ReplLockManagerImpl', 'ReplLockManager'))],
